@@ -141,6 +141,15 @@ class DecStr:
         self.text = text    # tuple of (symbolic) bytes when the digits are known, else None
 
 
+class CatStr:
+    """a String holding concrete bytes followed by the text of a symbolic decimal (write!(buf, "{}", d) into a non-empty buffer)"""
+    __slots__ = ('prefix', 'ds')
+
+    def __init__(self, prefix, ds):
+        self.prefix = tuple(prefix)
+        self.ds = ds
+
+
 class Closure:
     __slots__ = ('key', 'caps')
 
